@@ -10,6 +10,9 @@ generated term and shows that the helper computes what the abstract model (Model
 and that the assertion helpers trap exactly on misaligned / non-positive pointers.
 A change of these functions in malloc.wat changes the term; if the model no longer follows, these proofs fail.
 -/
+set_option linter.unusedSimpArgs false
+set_option linter.unusedVariables false
+
 namespace WaVerif.C10.GenProps
 open WaVerif.C10 WaVerif.C10.Wat WaVerif.C10.Gen
 
@@ -28,7 +31,7 @@ theorem call_alignment8 (g : String → Int) (f : Nat) (l st : List Int) (n : In
   simp (disch := omega) only [f_heap_alignment8, run_cons, run_nil, seqK_next, step_localGet, step_const, step_add, step_divS, step_mul,
     List.take, List.reverse_cons, List.reverse_nil, List.nil_append, List.replicate, List.append_nil, List.getD_cons_zero,
     wrap32_small, divS_pos, Option.map_some]
-  simp [callRet]
+  simp [callRet] <;> omega
 
 
 theorem gl_cap (c : Config) : glOf c "__heap_lfixed_cap" = (c.cap : Int) := by simp [glOf]
